@@ -23,6 +23,9 @@ func genTraffic(rng *rand.Rand, nMsgs int, heldProb int, idPool int) []envOp {
 			held = "H"
 		}
 		if rng.Intn(2) == 0 {
+			if rng.Intn(4) == 0 { // an explicit null id is a notification too
+				return fmt.Sprintf(`{"jsonrpc":"2.0","id":null,"method":"m","params":[%q,"ok"]}`, fmt.Sprintf("%sn%d", held, uid))
+			}
 			return reqNote(fmt.Sprintf("%sn%d", held, uid), "ok")
 		}
 		var id any = uid
@@ -263,6 +266,22 @@ func TestC03(t *testing.T) {
 					sc.Ops = insertOp(rng, sc.Ops, envOp{Kind: "notify", Arg: "p1"})
 				}
 			}
+			if sc.AllowPush && rng.Intn(2) == 0 {
+				// a handler (mostly of a notification) that awaits a callback while later messages
+				// arrive; the peer answers at the end
+				u := 500 + i
+				var m string
+				if rng.Intn(4) != 0 {
+					m = reqNote(fmt.Sprintf("n%d", u), fmt.Sprintf("cb:k%d", u))
+				} else {
+					m = reqCall(u, fmt.Sprintf("c%d", u), fmt.Sprintf("cb:k%d", u))
+				}
+				at := rng.Intn(len(sc.Ops))
+				ops := append([]envOp{}, sc.Ops[:at]...)
+				ops = append(ops, envOp{Kind: "send", Arg: m})
+				ops = append(ops, sc.Ops[at:]...)
+				sc.Ops = append(ops, envOp{Kind: "cbreply", Arg: fmt.Sprintf("k%d", u)})
+			}
 			for j := 0; j < nSched; j++ {
 				runOne(sc, seededPick(rng))
 			}
@@ -273,6 +292,10 @@ func TestC03(t *testing.T) {
 			{Concurrency: 2, Ops: []envOp{{Kind: "send", Arg: reqBatch(reqCall(1, "Hc1", "ok"), reqNote("n2", "ok"))}, {Kind: "send", Arg: reqCall(2, "c3", "ok")}}},
 			{Concurrency: 2, Ops: []envOp{{Kind: "send", Arg: reqCall(1, "Hc1", "ok")}, {Kind: "send", Arg: reqNote("n2", "ok")}, {Kind: "send", Arg: reqCall(2, "c3", "ok")}}},
 			{Concurrency: 1, Ops: []envOp{{Kind: "send", Arg: reqNote("n1", "ok")}, {Kind: "send", Arg: reqNote("n2", "ok")}, {Kind: "stop"}, {Kind: "send", Arg: reqNote("n3", "ok")}}},
+			// a notification handler waiting for a callback still holds later messages back
+			{Concurrency: 2, AllowPush: true, Ops: []envOp{{Kind: "send", Arg: reqNote("n1", "cb:k1")}, {Kind: "send", Arg: reqCall(1, "c2", "ok")}, {Kind: "send", Arg: reqNote("n3", "ok")}, {Kind: "cbreply", Arg: "k1"}}},
+			{Concurrency: 3, AllowPush: true, Ops: []envOp{{Kind: "send", Arg: reqBatch(reqNote("n1", "cb:k1"), reqCall(1, "c2", "ok"))}, {Kind: "send", Arg: reqBatch(reqCall(2, "c3", "ok"), reqNote("n4", "ok"))}, {Kind: "cbreply", Arg: "k1"}}},
+			{Concurrency: 2, AllowPush: true, Ops: []envOp{{Kind: "send", Arg: `{"jsonrpc":"2.0","id":null,"method":"m","params":["n1","ok"]}`}, {Kind: "send", Arg: reqCall(1, "c2", "ok")}}},
 		}
 		for _, sc := range corpus {
 			for j := 0; j < pick(40, 400); j++ {
